@@ -106,6 +106,13 @@ func (v *Verifier) generateProperty(id string) (*propRun, error) {
 			pr.results = append(pr.results, v.VerifyLemma(lm))
 			continue
 		}
+		// `F@label`: the function serves this property through its clauses
+		// labelled @label only (the rest of its contract belongs to the
+		// properties it is bound to without a label)
+		only := ""
+		if k := strings.LastIndex(n, "@"); k > strings.Index(n, "::") && k >= 0 {
+			n, only = n[:k], n[k+1:]
+		}
 		fc := v.cs.Funcs[n]
 		if fc == nil {
 			return nil, fmt.Errorf("property %s names %s, which has no contract", id, n)
@@ -113,7 +120,21 @@ func (v *Verifier) generateProperty(id string) (*propRun, error) {
 		if fc.Assumed || fc.Iface {
 			continue
 		}
-		pr.results = append(pr.results, v.VerifyFunc(fc))
+		fr := v.VerifyFunc(fc)
+		if only != "" {
+			cp := *fr
+			cp.Obls = nil
+			for _, o := range fr.Obls {
+				if strings.HasSuffix(o.Name, "@"+only) {
+					cp.Obls = append(cp.Obls, o)
+				}
+			}
+			if len(cp.Obls) == 0 {
+				return nil, fmt.Errorf("property %s names %s@%s, but no clause of that contract carries the label", id, n, only)
+			}
+			fr = &cp
+		}
+		pr.results = append(pr.results, fr)
 	}
 	for _, r := range pr.results {
 		pr.obls = append(pr.obls, r.Obls...)
